@@ -43,6 +43,14 @@ theorem unpackHeadersRaw_cons (l0 l1 a2 a3 a4 a5 a6 a7 a8 a9 a10 a11 : Nat) (tl 
   simp [unpackHeadersRaw, unpackMailboxHeader, unpackService, unpackCommand, LEN_HeadersRaw, LEN_MailboxHeader,
     validDisc_priority, hty, hsvc, hcmd, rd16]
 
+theorem unpackCoeHeaders_cons (l0 l1 a2 a3 a4 a5 a6 a7 : Nat) (tl : List Nat)
+    (hty : validDisc mailboxType (bitsOf a5 0 4) = true) (hsvc : validDisc coeService (bitsOf a7 4 4) = true) :
+    unpackCoeHeaders (l0 :: l1 :: a2 :: a3 :: a4 :: a5 :: a6 :: a7 :: tl) =
+      .ok ({ length := l0 + 256 * l1, priority := bitsOf a4 6 2, mailboxType := bitsOf a5 0 4, counter := bitsOf a5 4 3 },
+           bitsOf a7 4 4) := by
+  simp [unpackCoeHeaders, unpackMailboxHeader, unpackService, LEN_CoeHeadersRaw, LEN_MailboxHeader, validDisc_priority,
+    hty, hsvc, rd16]
+
 theorem unpackSdoNormal_cons (l0 l1 a2 a3 a4 a5 a6 a7 a8 a9 a10 a11 : Nat) (tl : List Nat)
     (hty : validDisc mailboxType (bitsOf a5 0 4) = true) (hsvc : validDisc coeService (bitsOf a7 4 4) = true)
     (hcmd : validDisc coeCommand (bitsOf a8 5 3) = true) :
